@@ -25,7 +25,14 @@ RULE = ("P: a HasTraits class is drawn from a menu of 25 trait declarations (Int
         "#CT: every trait type of traits.api x options x {__getstate__/__setstate__, pickle 0/2/5, copy, deepcopy} x "
         "{as_ctrait, class trait}, behaviour on 22 sample values compared before/after, in a subprocess (a crash is an "
         "observation). #OBS: declared @observe / @on_trait_change / Property(observe=) / cached_property on the copy. "
-        "#G: Instance graphs (chain, shared child, parent cycle, dict of children). Non-trivial = produced "
+        "#G: Instance graphs (chain, shared child, parent cycle, dict of children). #PH: traits whose validator "
+        "depends on the initialisation phase - UUID(), UUID(can_init=True) (also transient), ReadOnly assigned in the "
+        "constructor / later / never / declared with a default, Constant, two custom TraitTypes that accept a value "
+        "only while traits_inited() is false - x value given / generated and read / generated and never read x object "
+        "copied directly or reached through List(Instance) / Instance / Dict / one object reached four ways x every "
+        "copy operation (+ clone_traits(names), clone_traits('all')): the copy has the original's value, refuses "
+        "what the original refuses, ordinary traits and sharing as in the original (oracle only; the order of the "
+        "set-up calls is translated and proved: C14_restored_before_inited). Non-trivial = produced "
         "observations; distinct = distinct output line")
 TRUSTED = [
     "pickle / copy.copy / copy.deepcopy drivers of CPython (memo, recursion through Instance references, "
@@ -34,6 +41,8 @@ TRUSTED = [
     "leaf validators are pure functions given to the model as a parameter (`Env.lv`); the driver instantiates Int, "
     "Str, CInt, Instance",
     "translator ctables.py (regex reader of ctraits.c, fails closed)",
+    "translator copychains.py (ast reader of has_traits.py, fails closed): the copy_type chains of copy_traits and "
+    "the order of the method calls on the new object in clone_traits / __setstate__",
     "node identities: the model allocates from a counter; the harness compares only the derived sharing flag",
 ]
 ASSUMPTIONS = [
@@ -211,6 +220,8 @@ def generate(rng, tier):
                 yield "#DEL %s %s %s" % (shape, override, op)
         for shape in ("chain", "shared", "cycle", "dict", "self"):
             yield "#G %s %s" % (shape, op)
+    for c in gen_ph(rng, {"quick": 100, "thorough": 4000}.get(tier, 1000)):
+        yield c
 
 
 # --------------------------------------------------------------------------- CT / T on the real code
@@ -955,6 +966,242 @@ def run_g(case):
     return " ".join(res), hits, ["G", "G:" + shape, "G:" + sig]
 
 
+# --------------------------------------------------------------------------- #PH: traits whose validator depends on
+# the initialisation phase (write-once / initialisable-only values) through every copy operation
+
+_PH = {}
+PH_KINDS = ["uuid", "uuid-init", "readonly", "readonly-late", "readonly-unset", "readonly-default", "constant",
+            "initonly", "initonly-str", "uuid-init-transient"]
+PH_BUILDS = ["given", "read", "unread"]
+PH_GRAPHS = ["direct", "list", "instance", "dict", "shared"]
+PH_OPS = PL.COPY_OPS + ["clone names", "clone all"]
+
+
+def phase_classes():
+    """One Doc class per kind (trait `x` of that kind next to ordinary traits) and a Shelf that reaches Docs through
+    a List(Instance), an Instance and a Dict."""
+    if _PH:
+        return _PH
+    import traits.api as T
+    mod = sys.modules[__name__]
+
+    class InitOnly(T.TraitType):
+        """Accepts a value only while the object is being set up (like UUID(can_init=True))."""
+        default_value = 0
+
+        def validate(self, object, name, value):
+            if object.traits_inited():
+                raise T.TraitError("The '%s' trait is read-only after initialisation" % name)
+            if not isinstance(value, int):
+                raise T.TraitError("int expected")
+            return value
+
+    class InitOnlyStr(InitOnly):
+        default_value = "unset"
+
+        def validate(self, object, name, value):
+            if object.traits_inited():
+                raise T.TraitError("The '%s' trait is read-only after initialisation" % name)
+            return str(value)
+    makers = {
+        "uuid": lambda: T.UUID(), "uuid-init": lambda: T.UUID(can_init=True),
+        "uuid-init-transient": lambda: T.UUID(can_init=True, transient=True),
+        "readonly": lambda: T.ReadOnly, "readonly-late": lambda: T.ReadOnly, "readonly-unset": lambda: T.ReadOnly,
+        "readonly-default": lambda: T.ReadOnly(5), "constant": lambda: T.Constant(7),
+        "initonly": lambda: InitOnly(), "initonly-str": lambda: InitOnlyStr(),
+    }
+    for kind, mk in makers.items():
+        cname = "PhDoc_" + kind.replace("-", "_")
+        cls = type(cname, (T.HasTraits,), {"x": mk(), "title": T.Str(), "pages": T.List(T.Int)})
+        cls.__module__ = __name__
+        cls.__qualname__ = cname
+        setattr(mod, cname, cls)
+        _PH[kind] = cls
+
+    class PhShelf(T.HasTraits):
+        label = T.Str()
+        documents = T.List(T.Instance(T.HasTraits))
+        favourite = T.Instance(T.HasTraits)
+        index = T.Dict(T.Str, T.Instance(T.HasTraits))
+    PhShelf.__module__ = __name__
+    PhShelf.__qualname__ = "PhShelf"
+    setattr(mod, "PhShelf", PhShelf)
+    _PH["shelf"] = PhShelf
+    return _PH
+
+
+def _ph_given(kind):
+    import uuid
+    if kind.startswith("uuid"):
+        return uuid.UUID("12345678-1234-5678-1234-567812345678")
+    if kind == "initonly-str":
+        return "given"
+    return 41
+
+
+def _ph_other(kind):
+    import uuid
+    if kind.startswith("uuid"):
+        return uuid.UUID("87654321-4321-8765-4321-876543218765")
+    if kind == "initonly-str":
+        return "other"
+    return 99
+
+
+def run_ph(case):
+    """`#PH kind build graph op`: does the copy carry the value of the original, and is it as read-only?"""
+    from traits.api import TraitError
+    _, kind, build, graph, op = case.split(None, 4)
+    cl = phase_classes()
+    Doc, Shelf = cl[kind], cl["shelf"]
+    hits = []
+    # ---- which constructions exist for this kind
+    takes_init = kind in ("uuid-init", "uuid-init-transient", "readonly", "initonly", "initonly-str")
+    if build == "given" and not (takes_init or kind == "readonly-late"):
+        return "skip no-such-construction", [], ["PH:skip"]
+
+    def make(title):
+        if build == "given" and kind == "readonly-late":
+            d = Doc(title=title, pages=[1, 2])
+            d.x = _ph_given(kind)
+        elif build == "given":
+            d = Doc(x=_ph_given(kind), title=title, pages=[1, 2])
+        else:
+            d = Doc(title=title, pages=[1, 2])
+            if build == "read":
+                d.x
+        return d
+    docs = [make("a")]
+    if graph == "direct":
+        root = docs[0]
+    else:
+        docs.append(make("b"))
+        root = Shelf(label="s")
+        if graph == "list":
+            root.documents = list(docs)
+        elif graph == "instance":
+            root.favourite = docs[0]
+            docs = docs[:1]
+        elif graph == "dict":
+            root.index = {"a": docs[0], "b": docs[1]}
+        elif graph == "shared":
+            root.documents = [docs[0], docs[1], docs[0]]
+            root.favourite = docs[0]
+            root.index = {"a": docs[0]}
+
+    def reach(r):
+        if graph == "direct":
+            return [r]
+        if graph == "list":
+            return list(r.documents)
+        if graph == "instance":
+            return [r.favourite]
+        if graph == "dict":
+            return [r.index["a"], r.index["b"]]
+        return [r.documents[0], r.documents[1]]
+    opclass = op.split()[0]
+    # pickle and copy.copy restore through __setstate__, deepcopy and clone_traits through copy_traits
+    route = "setstate" if opclass in ("pickle", "copy") else "copy_traits"
+    sig_tail = "%s:%s" % (kind, route)
+    # ---- the copy
+    try:
+        if op == "clone names":
+            cp = root.clone_traits(["x", "title", "pages"] if graph == "direct" else
+                                   ["label", "documents", "favourite", "index"], copy="deep")
+        elif op == "clone all":
+            cp = root.clone_traits("all", copy="deep")
+        else:
+            cp = PL.do_copy(root, op)
+    except Exception as e:
+        hits.append({"signature": "phase:copy-raises:" + sig_tail,
+                     "what": "%s of an object %s `x = %s` (%s) raises %s: %s" % (
+                         op, "with" if graph == "direct" else "reaching (%s) objects with" % graph, kind, build,
+                         type(e).__name__, str(e)[:160])})
+        return "raises " + type(e).__name__, hits, ["PH", "PH:" + kind, "PH:raises"]
+    res = []
+    shares = opclass == "copy" or op in ("clone n", "clone s")     # shallow operations hand nested objects over
+    copies = reach(cp)
+    deep_op = opclass in ("pickle", "deepcopy") or op in ("clone d", "clone names", "clone all")
+    if graph == "shared" and deep_op and not (cp.favourite is cp.documents[0] is cp.documents[2] is cp.index["a"]):
+        hits.append({"signature": "phase:sharing-lost:" + opclass,
+                     "what": "one document reached four ways is no longer one object after " + op})
+    for d0, d1 in zip(docs, copies):
+        if graph != "direct" and shares:
+            if d1 is not d0:
+                res.append("copied")
+            else:
+                res.append("shared")
+                continue
+        if d1 is d0:
+            hits.append({"signature": "phase:not-copied:" + sig_tail, "what": "%s returned the original document" % op})
+            continue
+        want = d0.__dict__.get("x", None) if build == "unread" and kind != "constant" else d0.x
+        fresh_ok = kind == "uuid-init-transient" or (build == "unread" and want is None)
+        # an unread generated value: `__getstate__` / copy_traits read it (C14_values: dynamic defaults are read
+        # exactly once, by the copy operation), so afterwards the original has one and the copy must have the same
+        v0, v1 = d0.x, d1.x
+        if fresh_ok and kind == "uuid-init-transient":
+            res.append("transient")
+        elif v1 != v0:
+            res.append("DIFF")
+            hits.append({"signature": "phase:value-differs:" + sig_tail,
+                         "what": "after %s the copy's `x` (%s, %s) is %r, the original's is %r - the value was not "
+                                 "carried over%s" % (op, kind, build, str(v1)[:40], str(v0)[:40],
+                                                    " (a NEW value was generated for the copy)" if kind.startswith(
+                                                        "uuid") else "")})
+        else:
+            res.append("same")
+        if d1.title != d0.title or d1.pages != d0.pages or (d1.pages is d0.pages):
+            hits.append({"signature": "phase:ordinary-traits-differ:" + sig_tail,
+                         "what": "title / pages of the copy differ from the original (or the list is shared)"})
+        # ---- write-once stays written: the copy refuses what the original refuses
+        def refuses(d):
+            try:
+                d.x = _ph_other(kind)
+            except TraitError:
+                return True
+            return False
+        twin = make("t")           # same construction as the original, to ask without disturbing it
+        r0 = refuses(twin)
+        before = d1.x
+        r1 = refuses(d1)
+        if r0 and not r1:
+            res.append("WRITABLE")
+            hits.append({"signature": "phase:writable-after-copy:" + sig_tail,
+                         "what": "the original refuses an assignment to `x` (%s, %s), the copy made by %s accepts it "
+                                 "(was %r, now %r)" % (kind, build, op, str(before)[:40], str(d1.x)[:40])})
+        elif r1 and not r0:
+            res.append("FROZEN")
+            hits.append({"signature": "phase:frozen-after-copy:" + sig_tail,
+                         "what": "the original still accepts a first assignment to `x` (%s, %s), the copy made by %s "
+                                 "refuses it" % (kind, build, op)})
+        else:
+            res.append("ro" if r1 else "rw")
+        try:
+            d1.pages.append("x")
+            hits.append({"signature": "phase:not-live:" + sig_tail, "what": "the copy's List(Int) accepts 'x'"})
+        except TraitError:
+            pass
+    return " ".join(res), hits, ["PH", "PH:" + kind, "PH:" + opclass]
+
+
+def gen_ph(rng, n_random):
+    out = []
+    for kind in PH_KINDS:
+        for build in PH_BUILDS:
+            for op in PH_OPS:
+                out.append("#PH %s %s direct %s" % (kind, build, op))
+    for kind in PH_KINDS:
+        for graph in PH_GRAPHS[1:]:
+            for op in ("pickle 2", "deepcopy", "clone n", "clone d", "clone all"):
+                out.append("#PH %s given %s %s" % (kind, graph, op))
+                out.append("#PH %s read %s %s" % (kind, graph, op))
+    for _ in range(n_random):
+        out.append("#PH %s %s %s %s" % (rng.choice(PH_KINDS), rng.choice(PH_BUILDS), rng.choice(PH_GRAPHS),
+                                        rng.choice(PH_OPS)))
+    return out
+
+
 # --------------------------------------------------------------------------- engine API
 
 def run_impl(case):
@@ -976,6 +1223,8 @@ def run_impl(case):
         return run_del(case)
     if case.startswith("#G "):
         return run_g(case)
+    if case.startswith("#PH "):
+        return run_ph(case)
     raise ValueError(case)
 
 
